@@ -356,6 +356,40 @@ def check_registration(acc):
     if extra or any(c is icontract.DBC for c in calls):
         acc.violation(core.Violation(PROP, "registration_unexpected", {"cls": str(extra)}, "unexpected announcements: {}".format(extra),
                                      spec={"registration": "extra"}, script=REG_SRC))
+    # a hook that is busy while further classes are created: (1) it derives a helper class through the meta-class itself,
+    # (2) another thread creates a class while the hook of this thread has not returned yet
+    import threading
+    calls2 = []
+    entered, leave = threading.Event(), threading.Event()
+
+    def busy_hook(cls):
+        calls2.append(cls.__name__)
+        if cls.__name__ in ("S", "T"):
+            type(cls)(cls.__name__ + "Helper", (cls,), {"__module__": "c18busy"})
+        if cls.__name__ == "Slow":
+            entered.set()
+            leave.wait(timeout=20)
+    mc._register_for_hypothesis = busy_hook
+    try:
+        S = icontract.DBCMeta("S", (icontract.DBC,), {"__module__": "c18busy"})
+        T = icontract.invariant(lambda self: True)(icontract.DBCMeta("T", (S,), {"__module__": "c18busy", "m": lambda self: 1}))
+        th = threading.Thread(target=lambda: icontract.DBCMeta("Slow", (icontract.DBC,), {"__module__": "c18busy"}))
+        th.start()
+        if not entered.wait(timeout=20):
+            raise RuntimeError("harness: the hook was never entered for Slow")
+        icontract.DBCMeta("Fast", (icontract.DBC,), {"__module__": "c18busy"})
+        leave.set()
+        th.join()
+    finally:
+        leave.set()
+        mc._register_for_hypothesis = orig
+    for name in ("S", "SHelper", "T", "THelper", "Slow", "Fast"):
+        n = calls2.count(name)
+        acc.case(("reg_busy", name), True, 1, n)
+        if n != 1:
+            acc.violation(core.Violation(PROP, "registration_count", {"cls": name, "count": n, "busy_hook": True},
+                                         "class {} (created while the registration hook was busy / by the hook itself) was announced {} times "
+                                         "(expected exactly once); announcements: {}".format(name, n, calls2), spec={"registration": name}, script=REG_SRC))
     # default hook: the weak set holds each class, never DBC itself
     ns2 = core.load_source(REG_SRC, "c18reg2")
     for cls in ns2["EXPECTED"]:
@@ -388,7 +422,7 @@ def run(tier, t0):
              "__postconditions__ and the class __invariants__ by hand equals the verdict of the real call; for def-style "
              "programs the lists name exactly the effective contracts of the declaration; exactly one checker per decorator "
              "stack; plus 18 class-creation shapes (statements, meta-class calls, derived meta-classes with and without an __init__ of their own, a direct __new__ of the meta-class) announced exactly once to a patched registration hook (and present in the "
-             "default store, DBC itself never); non-trivial = programs with at least one condition",
+             "default store, DBC itself never), also when the hook itself derives a helper class through the meta-class and when another thread creates a class while the hook is busy; non-trivial = programs with at least one condition",
         assumptions=["the hand evaluation follows tests/test_for_integrators.py: select kwargs by the condition signature, stop at "
                      "the first falsy condition of a group / the first satisfied group"],
         bounds={"programs": len(sp) - 1},
